@@ -9,7 +9,14 @@ K(tag, nums) == Key(Seed \o "/" \o tag, nums)
 New(length, prefix, vpassword, vindex, vpath, threads) ==
   [length |-> length, prefix |-> prefix, vpassword |-> vpassword, vindex |-> vindex, vpath |-> vpath, threads |-> threads]
 \* fail: <<request numbers that the shim refuses>>, from: refuse every request >= from (-1: none)
-NewIn(c, fail, from) ==
+\* every command gets a spelling style chosen by its content (10 of 12: the five spellings of Args!Styles in both option
+\* orders; 2 of 12: the plain form); values that would not survive as a separate token (a leading "-") keep the plain form
+Styled(c0) ==
+  LET k == PrngNat(K("nsty" \o c0.prefix \o "/" \o c0.length \o "/" \o c0.threads \o "/" \o c0.vindex \o "/" \o c0.vpath, <<>>), 12)
+      ok == \A i \in 1..7 : SeparableValue(NewVal(c0, NewKeys[i]))
+  IN  IF k >= 10 \/ ~ok \/ "style" \in DOMAIN c0 THEN c0 ELSE c0 @@ [style |-> [opt |-> Styles[1 + (k % 5)], rev |-> k >= 5]]
+NewIn(c0, fail, from) ==
+  LET c == Styled(c0) IN
   [new |-> c, argv |-> NewArgv(c), env |-> [HDW_NONE |-> ""], timeout_ms |-> 120000,
    \* once a failure was injected every later request is delayed by 500 ms (see Vanity!PromptExit)
    shim |-> IF from >= 0 THEN [fail_at |-> fail, fail_from |-> from, slow_after_fail_ms |-> 500]
